@@ -39,7 +39,7 @@ class SimIOError(Exception):
 class FaultCtl:
     """Counts crossings of fault sites inside the current op and fires armed ones."""
 
-    SITES = ("leaf_iter", "udf", "db_before", "db_mid", "db_after", "hook_before", "hook_after", "stream_row")
+    SITES = ("leaf_iter", "udf", "udf_stop", "db_before", "db_mid", "db_after", "hook_before", "hook_after", "stream_row")
 
     def __init__(self):
         self.counts = Counter()
@@ -228,6 +228,11 @@ class World:
         def udf(x):
             self.udf_calls[fname] += 1
             self.fault.cross("udf")
+            try:
+                self.fault.cross("udf_stop")
+            except SimIOError:
+                # a user callable that lets StopIteration escape (e.g. a bare next() on a helper iterator)
+                raise StopIteration("injected StopIteration from a column function") from None
             return f(x)
 
         return udf
